@@ -204,7 +204,15 @@ def rule_switch_phi(ctx):
     if len(ph) != 1:
         return ctx.missing(R, "Phi arm")
     t = render(ph[0]["body"]).replace(" ", "")
-    ok = "collect::<Option<HashSet<_>>>()" in t and "values.len()==1" in t
+    import sgrep
+    envp = sgrep.lets(ph[0]["body"])
+    hs = [k for k, v in envp.items() if sgrep.has(v, "__a.iter().map(|__n| env.get_variable(__n)).collect::<Option<HashSet<_>>>()")]
+    ok = len(hs) == 1 and any(("%s.len()==1" % x) in t for x in [hs[0], "values"]) if hs else False
+    if hs and not ok:
+        # the binding of the Some(..) arm
+        for a_ in walk(ph[0]["body"]):
+            if a_["k"] == "Arm" and a_["guard"] is not None and re.fullmatch(r"\(?(\w+)\.len\(\)==1\)?", render(a_["guard"]).replace(" ", "")):
+                ok = True
     ctx.check(R, "Phi/all-known-and-equal", ok, "expected `args.iter().map(|name| env.get_variable(name)).collect::<Option<HashSet<_>>>()` and `len() == 1`: %s" % t[:200], site(EI, ph[0]))
 
 
@@ -244,7 +252,9 @@ def rule_environment(ctx):
     gv = find_fn(VM, "get_variable", "ValueEnvironment")
     if gv is not None:
         t = render(gv["body"]).replace(" ", "")
-        ctx.check(R, "ValueEnvironment::get_variable", t == "{self.reduces_to.get(name)}", t, site(VM, gv))
+        import sgrep
+        pvv = sgrep.params(gv)
+        ctx.check(R, "ValueEnvironment::get_variable", bool(pvv) and sgrep.has(gv["body"], "self.reduces_to.get(__n)", sgrep.lets(gv["body"]), {"__n": pvv[0]}), t, site(VM, gv))
 
 
 def rule_literals(ctx):
